@@ -20,6 +20,7 @@ Print Assumptions C11_spheropolyhedron_area.
 Theorem C11_spheropolyhedron_mean_curvature :
   forall r E, sphero_mean_curvature r E = mean_curvature E + r.
 Proof. exact sphero_curvature. Qed.
+Print Assumptions C11_spheropolyhedron_mean_curvature.
 
 Theorem C11_radius_zero_coincides :
   forall V S E,
@@ -34,9 +35,11 @@ Print Assumptions C11_spheropolygon_area.
 
 Theorem C11_spheropolygon_perimeter : forall P r, spg_perimeter P r = P + 2 * PI * r.
 Proof. exact spheropolygon_perimeter. Qed.
+Print Assumptions C11_spheropolygon_perimeter.
 
 Theorem C11_spheropolygon_radius_zero : forall A P, spg_area A P 0 = Rabs A /\ spg_perimeter P 0 = P.
 Proof. exact spheropolygon_r0. Qed.
+Print Assumptions C11_spheropolygon_radius_zero.
 
 (* dihedral angle: arccos(-n1.n2) is pi minus the angle between the outward normals, in [0, pi] *)
 Theorem C11_dihedral :
